@@ -333,7 +333,7 @@ mutual
             have hk : p.1 ∈ jsonNames fields := hkeys _ (mem_keys_of_lookup hl)
             rw [ModelsFields.tight fields (props.getD []) hmf hdom.2 f (scope ++ [id]) p.1 p.2 hk
               (fun t ht => hnamed t ht) (plainInts_memObj (by simpa [PlainInts] using hp) p hpm)]
-    | .named _ _, _, _, hm, _, _, _, _, _, _ => by simp only [Models] at hm
+    | .named _ _, _, _, _, hdom, _, _, _, _, _ => by simp [InDomain] at hdom
     | .ref _, _, _, hm, _, _, _, _, _, _ => by simp only [Models] at hm
   theorem ModelsFields.tight {nfs : Bool} {st : Store} {re : String → String → Bool} :
       ∀ (fields : List (String × String × GoType)) (props : List (String × NodeId)),
